@@ -49,3 +49,5 @@ import Bmc.Proofs.EndToEnd.DiscoveryC12
 #print axioms Bmc.Proofs.EndToEnd.retrieveLoop_congr
 #print axioms Bmc.Proofs.EndToEnd.determineFull_congr
 #print axioms Bmc.Proofs.EndToEnd.generated_determineCipherSuite_first_preference
+#print axioms Bmc.Proofs.EndToEnd.generated_determineCipherSuite_single
+#print axioms Bmc.Proofs.EndToEnd.generated_determineCipherSuite_defaults
